@@ -114,9 +114,12 @@ type Hist struct {
 	// CancelInBuild requests on the non-coalescing writer end their own context inside frame building (after
 	// exec's entry check, before writeContext); then a plain request must complete and Conn.Close must unblock
 	CancelInBuild int
-	PushEvents    bool // the node pushes EVENT frames (stream -1) on the pool connection while requests are outstanding
-	IdleMs        int  // stay idle this long before quiescence (> 1000: the heartbeat's OPTIONS exec appears in the logs)
-	Handshake     int  // 0: normal; 1: node never answers STARTUP; 2: node closes during the handshake; 3: cut mid-header of SUPPORTED
+	// FlagBody > 0: no compressor on the connection; the first request is answered with a compress-flagged frame
+	// whose body is 1: a well-formed frame for another outstanding stream, 2: one for an idle stream, 3: garbage
+	FlagBody   int
+	PushEvents bool // the node pushes EVENT frames (stream -1) on the pool connection while requests are outstanding
+	IdleMs     int  // stay idle this long before quiescence (> 1000: the heartbeat's OPTIONS exec appears in the logs)
+	Handshake  int  // 0: normal; 1: node never answers STARTUP; 2: node closes during the handshake; 3: cut mid-header of SUPPORTED
 }
 
 func (h *Hist) wd() time.Duration {
@@ -374,7 +377,7 @@ func classify(err error) string {
 	switch {
 	case strings.Contains(s, "unexpected protocol version in response"):
 		return "protoerr"
-	case strings.Contains(s, "unable to read frame body"):
+	case strings.Contains(s, "unable to read frame body"), strings.Contains(s, "no compressor available"):
 		return "readerr"
 	case strings.Contains(s, "injected"), strings.Contains(s, "i/o timeout"), strings.Contains(s, "closed pipe"), strings.Contains(s, "broken pipe"),
 		strings.Contains(s, "use of closed"), errors.Is(err, io.EOF), strings.Contains(s, "EOF"):
@@ -572,6 +575,8 @@ func Run(h *Hist) *Report {
 		r.coalCancelScenario(s, pool, rep, viol)
 	} else if h.CancelInBuild > 0 {
 		r.cancelInBuildScenario(s, pool, poolConn, rep, viol)
+	} else if h.FlagBody > 0 {
+		r.flagBodyScenario(s, pool, rep, viol)
 	} else if h.TempErr {
 		r.tempErrScenario(s, pool, rep, viol)
 	} else if h.TimeoutLimit > 0 {
